@@ -5,7 +5,8 @@ import Emerge.Base
     buff[0:2n]; forward; retracted; the io.Reader is consumed in blocks of n bytes
     load(low)      n bytes (fewer at the end of the source) into buff[low:low+n]; a short block is followed by the
                    sentinel 0x00
-    next()         b := buff[forward]; b == 0 → io.EOF, nothing changes
+    next()         b := buff[forward]; b == 0 and forward == end → io.EOF, nothing changes
+                   (end = the index of the sentinel once the source has ended: a zero byte of the source is data)
                    forward++; retracted > 0 → retracted-- (wrap at 2n, no load)
                    else forward == n → load(n); forward == 2n → load(0), forward = 0
     Retract(size)  forward -= size (wrapping below 0 by +2n); retracted += size
@@ -24,6 +25,7 @@ structure RState where
   pend : Nat          -- `retracted`
   loaded : Nat        -- how much of the source the loads have consumed
   pending : List Nat  -- the bytes of the pending lexeme
+  stop : Option Nat   -- `end`: the index of the sentinel once the source has ended (`none` = -1)
 
 def load (src : Nat → Nat) (len n : Nat) (s : RState) (low : Nat) : RState :=
   let cnt := min n (len - s.loaded)
@@ -32,12 +34,13 @@ def load (src : Nat → Nat) (len n : Nat) (s : RState) (low : Nat) : RState :=
       if low ≤ i ∧ i < low + cnt then src (s.loaded + (i - low))
       else if i = low + cnt ∧ cnt < n then 0
       else s.buf i,
-    loaded := s.loaded + cnt }
+    loaded := s.loaded + cnt,
+    stop := if cnt < n then some (low + cnt) else s.stop }
 
 /-- `next()` without the bookkeeping of the pending lexeme -/
 def nextCore (src : Nat → Nat) (len n : Nat) (s : RState) : Option Nat × RState :=
   let b := s.buf s.fwd
-  if b = 0 then (none, s)
+  if b = 0 ∧ s.stop = some s.fwd then (none, s)
   else
     let f := s.fwd + 1
     if 0 < s.pend then (some b, { s with fwd := if f = 2 * n then 0 else f, pend := s.pend - 1 })
@@ -57,7 +60,7 @@ def retract (n : Nat) (s : RState) (size : Nat) : RState :=
 
 /-- `newInput`: an empty buffer, then the first half is loaded -/
 def init (src : Nat → Nat) (len n : Nat) (buf0 : Nat → Nat) : RState :=
-  load src len n ⟨buf0, 0, 0, 0, []⟩ 0
+  load src len n ⟨buf0, 0, 0, 0, [], none⟩ 0
 
 def lexeme (s : RState) : List Nat × RState := (s.pending, { s with pending := [] })
 
